@@ -195,6 +195,7 @@ int EGLPNUM_TYPENAME_ILLwrite_lp (
 	EGLPNUM_TYPE *colCoef = NULL;
 	int *colInRow = NULL;
 	const char *objname;
+	char objbuf[ILL_namebufsize];
 
 	ILL_FAILfalse (lp, "called without data\n");
 	ILL_FAILfalse (lp->colnames != NULL, "lp->colnames != NULL");
@@ -217,8 +218,15 @@ int EGLPNUM_TYPENAME_ILLwrite_lp (
 	rval = fix_names (collector, lp->colnames, lp->nstruct, NULL, 'x', &colnames);
 	CHECKRVALG (rval, CLEANUP);
 
+	if (lp->objname == (char *) NULL)
+	{
+		/* as in the MPS writer: a label for the objective that no row carries */
+		strcpy (objbuf, "obj");
+		rval = ILLsymboltab_uname (&lp->rowtab, objbuf, "", NULL);
+		CHECKRVALG (rval, CLEANUP);
+	}
 	rval = fix_names (collector, lp->rownames, lp->nrows,
-										(lp->objname) ? lp->objname : "obj", 'c', &rownames);
+										(lp->objname) ? lp->objname : objbuf, 'c', &rownames);
 	CHECKRVALG (rval, CLEANUP);
 	objname = rownames[lp->nrows];
 
